@@ -74,17 +74,19 @@ Fixpoint dec_loop (fuel : nat) (z : Z) (acc : bytes) : bytes :=
 Definition dec (z : Z) : bytes := dec_loop 24 z [].
 Definition dec_signed (z : Z) : bytes := if z <? 0 then 45 :: dec (- z) else dec z.
 
-Fixpoint print_rest (l : bytes) (b : Z) : bytes :=
+(* the accumulator is a u64 guarded at 2^32-1 (RFC 2578 sub-identifier range): nothing wraps below the guard *)
+Fixpoint print_rest (l : bytes) (b : Z) : res bytes :=
   match l with
-  | [] => []
-  | c :: r => let b' := wrap32 (b * 128 + Z.land c 127) in
-              if Z.land c 128 =? 0 then DOT :: dec b' ++ print_rest r 0 else print_rest r b'
+  | [] => Ok []
+  | c :: r => let b' := b * 128 + Z.land c 127 in
+              if 4294967295 <? b' then Err InvalidData
+              else if Z.land c 128 =? 0 then t <- print_rest r 0 ;; Ok (DOT :: dec b' ++ t) else print_rest r b'
   end.
 
 Definition text_of_oid (o : bytes) : res bytes :=
   match o with
   | [] => Err InvalidData
-  | first :: r => Ok (dec (first / 40) ++ DOT :: dec (first mod 40) ++ print_rest r 0)
+  | first :: r => t <- print_rest r 0 ;; Ok (dec (first / 40) ++ DOT :: dec (first mod 40) ++ t)
   end.
 
 (* subidentifiers / is_after (the order of a MIB walk) *)
